@@ -70,6 +70,11 @@ STRUCTS = [
     dict(name='S37', beh=None, kind='named', fields=[F('b', 'Blob', '', 'blob_var')]),
     dict(name='S38', beh=None, kind='named', fields=[F('a', 'u8'), F('x', 'VarNative', '', 'fix4'), F('c', 'u16')]),
     dict(name='S39', beh=None, kind='named', fields=[F('x', 'VarNative', '', 'fix4'), F('b', 'Blob', '', 'blob_var'), F('v', 'Vec<u16>')]),
+    # zero-width fixed-size members before, between and after variable-size ones (their slices are empty too)
+    dict(name='S41', beh=None, kind='named', fields=[F('z', '[u8; 0]'), F('l', 'Option<u16>', '', 'leg_u16'), F('v', 'Vec<u8>')]),
+    dict(name='S42', beh=None, kind='named', fields=[F('a', 'u8'), F('z', '[u8; 0]'), F('v', 'Vec<u8>'), F('y', '[u8; 0]'), F('w', 'Vec<u16>'), F('x', '[u8; 0]')]),
+    # more than 256 fields, the variable-size ones last (indices 256 and 257)
+    dict(name='S40', beh=None, kind='named', fields=[F('f%03d' % i, 'u8') for i in range(256)] + [F('tail', 'Vec<u8>'), F('tail2', 'Vec<u16>')]),
     # more than 8 and more than 16 fields (inline small-vector spill)
     dict(name='S30', beh=None, kind='named', fields=[F('f%d' % i, 'Vec<u8>' if i % 3 == 0 else 'u8') for i in range(17)]),
     dict(name='S17', beh=None, kind='named', fields=[F('a', 'u8'), F('b', 'Vec<u8>'), F('c', 'u16'), F('d', 'Vec<Vec<u8>>'), F('e', 'bool'), F('f', 'Vec<u16>')]),
@@ -226,7 +231,20 @@ def main():
         desc = "DS--(" + ';'.join('n0:' + TY[t] for t in g['tys']) + ")"
         vals = ', '.join(f"crate::model::Model::to_val(&self.{n})" for n, _ in g['fields'])
         ctor = g['name'] + ' { ' + ', '.join(f"{n}: <{t} as crate::model::Model>::gen(g, size)" for (n, _), t in zip(g['fields'], g['tys'])) + ' }'
+        terms = ''.join(f" + (if <{t} as ssz::Encode>::is_ssz_fixed_len() {{ <{t} as ssz::Encode>::ssz_fixed_len() }} else {{ ssz::BYTES_PER_LENGTH_OFFSET }})" for t in g['tys'])
+        apps = ' '.join(f"enc.append(&self.{n});" for n, _ in g['fields'])
         out.append(f"""impl crate::derive::DModel for {inst} {{
+    fn manual(&self) -> Option<Vec<u8>> {{
+        let mut buf: Vec<u8> = vec![0x5A, 0xC3];
+        let fixed: usize = 0{terms};
+        {{
+            let mut enc = ssz::SszEncoder::container(&mut buf, fixed);
+            {apps}
+            enc.finalize();
+        }}
+        if buf[..2] != [0x5A, 0xC3] {{ return Some(vec![0xEE; 3]); }}
+        Some(buf[2..].to_vec())
+    }}
     fn name() -> &'static str {{ "{g['name']}<{g['inst']}>" }}
     fn def_desc() -> String {{ "{desc}".to_string() }}
     fn symmetric() -> bool {{ true }}
@@ -238,7 +256,7 @@ def main():
 }}
 """)
         names.append(inst)
-    names += ['TagD', 'TagR', 'UnD', 'TrD', 'SC<0>', 'SC<3>', 'SC<32>', 'GU<u8>', 'GU<u32>', 'GU<Vec<u16>>', 'GT<u8>', 'GT<u32>', 'GT<Vec<u16>>']
+    names += ['TagD', 'TagR', 'UnD', 'UnW', 'TrD', 'SC<0>', 'SC<3>', 'SC<32>', 'GU<u8>', 'GU<u32>', 'GU<Vec<u16>>', 'GT<u8>', 'GT<u32>', 'GT<Vec<u16>>']
     calls = ' '.join(f"$f::<{n}>($ctx);" for n in names)
     out.append(f"#[macro_export]\nmacro_rules! for_each_derived {{ ($f:ident, $ctx:expr) => {{{{ use $crate::derive_gen::*; {calls} }}}}; }}\n")
     open(os.path.join(ROOT, 'harness/src/derive_gen.rs'), 'w').write('\n'.join(out))
@@ -509,6 +527,25 @@ macro_rules! gu_impl {
 gu_impl!(u8, "GU<u8>");
 gu_impl!(u32, "GU<u32>");
 gu_impl!(Vec<u16>, "GU<Vec<u16>>");
+
+/// a union whose variants carry `#[ssz(with = ..)]` on their field (the derive ignores it for enums; the module is a
+/// pass-through, so only the selectors could tell): selectors are still the declaration indices
+#[derive(ssz_derive::Encode, ssz_derive::Decode, Clone, PartialEq, Debug)]
+#[ssz(enum_behaviour = "union")]
+pub enum UnW { A(#[ssz(with = "plain_u32")] u32), B(u8), C(#[ssz(with = "plain_u32")] u32), D(Vec<u8>) }
+impl crate::derive::DModel for UnW {
+    fn name() -> &'static str { "UnW" }
+    fn def_desc() -> String { "DEu-(u:U4|u:U1|u:U4|u:L(U1))".to_string() }
+    fn symmetric() -> bool { true }
+    fn to_val_all(&self) -> String {
+        use crate::model::Model;
+        match self { UnW::A(x) => format!("U0({})", x.to_val()), UnW::B(x) => format!("U1({})", x.to_val()), UnW::C(x) => format!("U2({})", x.to_val()), UnW::D(x) => format!("U3({})", x.to_val()) }
+    }
+    fn gen(g: &mut crate::rng::Rng, size: usize) -> Self {
+        use crate::model::Model;
+        match g.below(4) { 0 => UnW::A(u32::gen(g, size)), 1 => UnW::B(u8::gen(g, size)), 2 => UnW::C(u32::gen(g, size)), _ => UnW::D(Vec::<u8>::gen(g, size)) }
+    }
+}
 
 /// enums whose Rust discriminants differ from the declaration order: selectors must still be the
 /// zero-based declaration index
